@@ -386,6 +386,31 @@ Definition reason_string (r : reason) : option (list Z) :=
   | _ => None
   end.
 
+(* The four Windows families whose Debug names come from the two large tables (winerror.h ~2860 names, ntstatus.h ~2930 names), over a
+   name function [nm : enumeration id -> value -> option name] (the correspondence run hands over the names of the values a case
+   consults, read from the checkout's windows.rs); every other family as above.
+   Display: WindowsWinError(e) "{e:?}"; WindowsWinErrorWithFacility(f, e) "{f:?} / {e:?}"; WindowsNtStatus(s) write_nt_status;
+   WindowsInPageError(a, s) "EXCEPTION_IN_PAGE_ERROR_{a:?} / " write_nt_status; write_nt_status = the name, else {:#010x} *)
+Definition nt_status_string (nm : Z -> Z -> option (list Z)) (v : Z) : list Z :=
+  match nm EN_WIN_NTSTATUS v with Some n => n | None => hex010 v end.
+Definition S_IN_PAGE : list Z := [69; 88; 67; 69; 80; 84; 73; 79; 78; 95; 73; 78; 95; 80; 65; 71; 69; 95; 69; 82; 82; 79; 82; 95].   (* "EXCEPTION_IN_PAGE_ERROR_" *)
+Definition reason_string_nm (nm : Z -> Z -> option (list Z)) (r : reason) : option (list Z) :=
+  match r with
+  | (WindowsWinError, [v]) => nm EN_WIN_ERROR v
+  | (WindowsWinErrorWithFacility, [fac; err]) =>
+      match name_of NAMES_WinErrorFacilityWindows fac, nm EN_WIN_ERROR err with
+      | Some a, Some b => Some (a ++ SEP ++ b)
+      | _, _ => None
+      end
+  | (WindowsNtStatus, [v]) => Some (nt_status_string nm v)
+  | (WindowsInPageError, [a; nt]) =>
+      match name_of NAMES_ExceptionCodeWindowsInPageErrorType a with
+      | Some an => Some (S_IN_PAGE ++ an ++ SEP ++ nt_status_string nm nt)
+      | None => None
+      end
+  | _ => reason_string r
+  end.
+
 (* ------------------------------------------------------------------ /proc/self/status -> Pid *)
 (* minidump.rs linux_list_iter(data, b':') (lines split at every 0x0a, split_once at the first ':', both halves
    trimmed of ASCII whitespace and of one pair of surrounding double quotes) and process_state.rs
